@@ -10,10 +10,17 @@ prove      : lake build SteelVerif.C15.Props + axiom audit: scan_exclusive_repai
              strength, no guard), R.Litmus (store buffers); scan_exclusive_partial(_code), env_coherent_partial(_code),
              env_published_partial for all N and all interleavings under the decidable guard G; negation witnesses
              not_scan_exclusive(_code) (exit race, K15a), not_env_coherent(_code) (late registration, K15b).
-correspond : (a) model schedules of corpus/C15/*.msched on the driver; (b) FORCED interleavings of real threads of the real
+correspond : (a0) HOST-SIDE scenarios (harness c15, `hostprog`): script threads left alive by an earlier Engine::run (servers on channels), then
+             random histories of host calls that assign existing globals (update_value, run of set!) or define new ones (register_value,
+             register_fn, run of define) mixed with assignments by the threads; every write is followed by reads through the host and
+             through the threads; oracle: one sequentially consistent store (a write by somebody else to another global must not undo it);
+             (a) model schedules of corpus/C15/*.msched on the driver; (b) FORCED interleavings of real threads of the real
              engine through the cfg(steel_verif) yield points (harness c15): corpus/C15/*.sched and generated variants — a
              thread is held at a chosen point of its safepoint entry / exit while another thread runs a global update up to a
-             chosen point; the per-thread `being scanned` counter must never be seen raised by a dispatching thread, no
+             chosen point; stale unpark tokens (a thread that sat in a primitive during / was the stopper of an earlier round must park AGAIN), a collection
+             held while it marks (hooks gc.mark.begin / gc.mark.end, when the tree has them); a thread must never be reported at the head of
+             its dispatch loop while another thread is between scan.begin and scan.end on it or has the world stopped; the per-thread
+             `being scanned` counter must never be seen raised by a dispatching thread, no
              thread may panic, the value must be the expected one; (c) programs with 2-8 threads (per-thread global counters,
              readers of globals, allocation, spawns during updates) with random delay injection at the window borders.
 oracle     : the specification S: a scanned thread is parked or inside a primitive (scanviol = 0, no thread runs on a swapped
@@ -31,7 +38,7 @@ META = {
     "ready": True,
     "category": "proof",
     "technique": "Lean 4 invariant proofs over two step-level transition systems of the safepoint handshake (the code as it is, under a guard; the REPAIRED handshake, no guard; any number of threads, all interleavings) + a store-buffer litmus for the Dekker pair + forced interleavings of real threads through cfg(steel_verif) yield points + multi-threaded programs with delay injection and an in-core `being scanned` detector",
-    "level_text": "Theorems (lean/SteelVerif/C15/Props.lean; model = C15/Model.lean: N script threads and stopper roles as one transition system, every access to a thread's pause flag, state, published pointer, park token, the threads mutex and the heap mutex one atomic step; stop_threads, enumerate_stacks / call_per_ctx, resume_threads, with_locked_env, enter_safepoint, the dispatch poll, spawn-before-registration and host interrupts modelled as the code has them): scan_exclusive_partial_code - for every number of threads and EVERY interleaving that respects the decidable guard G (rounds do not overlap a spawn or a host interrupt; no stop request reaches a thread between its last exit check and its retraction), a thread whose stack / global table is being inspected or replaced is parked at a safepoint or inside a primitive that published it; env_coherent_partial_code / env_published_partial - when no round is in progress every live thread holds the newest global table. For the current code (heap-lock guard kept during with_locked_env) the guard's clause 'rounds do not overlap each other' is implied: C16/Props.lean scan_exclusive_fixed / env_coherent_fixed state both theorems under the weaker guard GFix. The FULL statements are false for the code as it is, proved from concrete schedules: not_scan_exclusive_code (safepoint exit race, 21 steps, N = 2: finding K15a) and not_env_coherent_code (a thread spawned during a round keeps the old table: K15b). REPAIRED HANDSHAKE (lean/SteelVerif/C15/ModelR.lean, LemmasR, StepR*, PropsR: K15a - every safepoint exit retracts and then re-checks the stop request and re-publishes if one arrived; K15b - spawn-native-thread holds the heap lock from before it clones its state until the child is registered; K17a/K17c - the controller as one word of request bits, every operation one atomic read-modify-write, exit loops wait on STOP only): R.step_inv - EVERY step preserves the invariant, no guard; scan_exclusive_repaired and env_coherent_repaired are the two C15 statements at FULL strength, for every number of threads and every schedule including host interrupt()/resume() on any controller and spawns at any time; scanned_stays / scanned_stop_set (a scanned thread's re-check never reads 'not stopped'), parked_has_wakeup (no lost wake-up in the new loop). R.Litmus (LitmusR.lean): the Dekker pair [stopper: paused.store; ctx.load] / [thread: ctx.store(None); paused.load] with one-slot store buffers - without fences the unsound outcome is reachable (sb_buffered_bad), with a fence between each store and the following load it is not (sb_fenced_safe, all interleavings by exhaustive evaluation). The K15a (with the two fences) and K15b repairs are in /repo (51ca93da, 467a8def); translate/c15_exits.py re-derives from the source on every run that every ctx.store(None) is followed by a fenced re-check and a re-publication, that stop_threads fences its requests and that spawn-native-thread clones and registers under the heap lock (obligations exit_rechecks_after_retract, stop_requests_fenced, spawn_registers_under_heap_lock in GenExits.lean, no exceptions once the findings are `fixed:`), and the check then compares the real engine with the repaired model (Driver repaired). The controller of the code is still two cells: ModelR is the model of the code for schedules without interrupt()/suspend(); with a host interrupt a scanned thread still leaves its safepoint (K15c, forced deterministically; oracle: a thread reported at the head of its dispatch loop while another thread is between scan.begin and scan.end on it); the one-word controller is proposed as .build/C15/proposed-fix-K17ac.diff. Progress of the repaired handshake: C16/ProgressR.lean (no_deadlock_repaired, stop_round_terminates, awaited_settles). NOT a theorem: that the Rust code follows the model. That is the correspondence run: the interleavings of the witnesses and of generated variants are FORCED on real threads through yield-point hooks (the exit race reproduces deterministically: the dispatch loop records that it runs while its thread is being scanned; with the JIT the thread indexes the swapped, empty table and the process aborts), and generated multi-threaded programs run with delay injection under the in-core detector.",
+    "level_text": "Theorems (lean/SteelVerif/C15/Props.lean; model = C15/Model.lean: N script threads and stopper roles as one transition system, every access to a thread's pause flag, state, published pointer, park token, the threads mutex and the heap mutex one atomic step; stop_threads, enumerate_stacks / call_per_ctx, resume_threads, with_locked_env, enter_safepoint, the dispatch poll, spawn-before-registration and host interrupts modelled as the code has them): scan_exclusive_partial_code - for every number of threads and EVERY interleaving that respects the decidable guard G (rounds do not overlap a spawn or a host interrupt; no stop request reaches a thread between its last exit check and its retraction), a thread whose stack / global table is being inspected or replaced is parked at a safepoint or inside a primitive that published it; env_coherent_partial_code / env_published_partial - when no round is in progress every live thread holds the newest global table. For the current code (heap-lock guard kept during with_locked_env) the guard's clause 'rounds do not overlap each other' is implied: C16/Props.lean scan_exclusive_fixed / env_coherent_fixed state both theorems under the weaker guard GFix. The FULL statements are false for the code as it is, proved from concrete schedules: not_scan_exclusive_code (safepoint exit race, 21 steps, N = 2: finding K15a) and not_env_coherent_code (a thread spawned during a round keeps the old table: K15b). REPAIRED HANDSHAKE (lean/SteelVerif/C15/ModelR.lean, LemmasR, StepR*, PropsR: K15a - every safepoint exit retracts and then re-checks the stop request and re-publishes if one arrived; K15b - spawn-native-thread holds the heap lock from before it clones its state until the child is registered; K17a/K17c - the controller as one word of request bits, every operation one atomic read-modify-write, exit loops wait on STOP only): R.step_inv - EVERY step preserves the invariant, no guard; scan_exclusive_repaired and env_coherent_repaired are the two C15 statements at FULL strength, for every number of threads and every schedule including host interrupt()/resume() on any controller and spawns at any time; scanned_stays / scanned_stop_set (a scanned thread's re-check never reads 'not stopped'), parked_has_wakeup (no lost wake-up in the new loop). R.Litmus (LitmusR.lean): the Dekker pair [stopper: paused.store; ctx.load] / [thread: ctx.store(None); paused.load] with one-slot store buffers - without fences the unsound outcome is reachable (sb_buffered_bad), with a fence between each store and the following load it is not (sb_fenced_safe, all interleavings by exhaustive evaluation). The K15a (with the two fences) and K15b repairs are in /repo (51ca93da, 467a8def); translate/c15_exits.py re-derives from the source on every run that every ctx.store(None) is followed by a fenced re-check and a re-publication, that stop_threads fences its requests and that spawn-native-thread clones and registers under the heap lock (obligations exit_rechecks_after_retract, stop_requests_fenced, spawn_registers_under_heap_lock in GenExits.lean, no exceptions once the findings are `fixed:`), and the check then compares the real engine with the repaired model (Driver repaired). The controller of the code is still two cells: ModelR is the model of the code for schedules without interrupt()/suspend(); with a host interrupt a scanned thread still leaves its safepoint (K15c, forced deterministically; oracle: a thread reported at the head of its dispatch loop while another thread is between scan.begin and scan.end on it); the one-word controller is proposed as .build/C15/proposed-fix-K17ac.diff. Progress of the repaired handshake: C16/ProgressR.lean (no_deadlock_repaired, stop_round_terminates, awaited_settles). Further table obligations regenerated from the source: park_is_in_a_loop (the nearest loop around every park() is a while on the request word; model side: staleToken_if_violates - before the K15a repair a poll that parks once violates the scan clause with one stale token, under the guard - and R.staleTokenR_if_recaught - on the repaired handshake the re-check catches it) and collection_resumes_last (values/closed.rs: the function that stops the world does not resume, every resume_threads stands after the marking call). Host-side definitions / assignments (Engine::update_value, register_value, register_fn) are tied by a differential family only (threads left alive by an earlier run; oracle: one sequentially consistent store). NOT a theorem: that the Rust code follows the model. That is the correspondence run: the interleavings of the witnesses and of generated variants are FORCED on real threads through yield-point hooks (the exit race reproduces deterministically: the dispatch loop records that it runs while its thread is being scanned; with the JIT the thread indexes the swapped, empty table and the process aborts), and generated multi-threaded programs run with delay injection under the in-core detector.",
     "level_note": "The one-word controller of the repaired model is a PROPOSED change (K17ac diff); exits and spawn of the repaired model are the code. Trusted: Lean kernel (axioms propext, Classical.choice, Quot.sound), harnesses c15 / c16 and the yield-point hooks (add-only, cfg(steel_verif)), the python classification. Modelled, not verified: sequentially consistent atomics in both handshake models (the code loads `paused` Relaxed; for the code as it is a store-buffer delay only widens the window the guard already excludes; for the repaired handshake the one Dekker pair that needs store->load ordering is the litmus R.Litmus), spurious park wake-ups are modelled, OS fairness is not assumed; thread list order = spawn order; the JIT's native code is 'runs until the next helper call'. The `being scanned` detector is read at instruction dispatch only, so in the interpreter a thread that escapes through an enter_safepoint exit re-parks at its next poll before the detector fires (the forced poll-exit schedule and the JIT abort are the observable forms).",
 }
 
@@ -80,11 +87,16 @@ def is_race_class(sched_text):
     return False
 
 
+# sites at which the thread that is held there has the WORLD stopped (every other thread is parked or inside a primitive until its
+# resume_threads): after the first pass over the other threads of with_locked_env, during the marking of a collection
+WORLD_STOPPED = ("env.thunk", "env.update_own", "gc.mark.begin", "gc.mark.end")
+
+
 def scanned_thread_outside(sched_text, out_lines):
     """Oracle S on a forced schedule with two script threads (0 and 1): some thread X is HELD between scan.begin and scan.end (it
-    is reading / replacing the state of the other thread Y) and Y is then reported held at `vm.dispatch` - the head of the dispatch
-    loop, outside every safepoint.  Returns (X, Y) or None.  The k-th schedule line (comments / prog excluded) is answered by the
-    k-th `ok`/`timeout` line."""
+    is reading / replacing the state of the other thread Y), or at a site where it has the whole world stopped (WORLD_STOPPED),
+    and Y is then reported held at `vm.dispatch` - the head of the dispatch loop, outside every safepoint.  Returns (X, Y) or
+    None.  The k-th schedule line (comments / prog excluded) is answered by the k-th `ok`/`timeout` line."""
     cmds = [l.split() for l in sched_text.splitlines() if l.strip() and not l.startswith(("#", "prog "))]
     inside = {}
     for f, o in zip(cmds, out_lines):
@@ -92,12 +104,13 @@ def scanned_thread_outside(sched_text, out_lines):
             continue
         t = f[0]
         ok = o.startswith("ok ")
-        if len(f) == 2 and f[1] not in ("free",):
-            if ok and f[1] == "scan.begin":
+        site = f[1] if len(f) == 2 else (f[2] if len(f) == 4 and f[1] == "probe" else (f[2] if len(f) == 3 and f[1] == "at" else None))
+        if site is not None and f[1] not in ("free",):
+            if ok and (site == "scan.begin" or site in WORLD_STOPPED):
                 inside[t] = True
-            elif ok and f[1] == "vm.dispatch" and any(x != t for x in inside):
+            elif ok and site == "vm.dispatch" and any(x != t for x in inside):
                 return (next(x for x in inside if x != t), t)
-            elif ok:
+            elif ok and f[1] != "probe":
                 inside.pop(t, None)
         elif len(f) >= 2 and f[1] in ("go", "free"):
             inside.pop(t, None)
@@ -135,7 +148,7 @@ def gen_forced(rnd, n):
 def run_sched(text, jit, attempt=0):
     rc, so, se = C.run_bin([C.bin_path("c15")], text, timeout=90, env={"STEEL_JIT": jit})
     r = [l for l in so.splitlines() if l.startswith("result ")]
-    kv = {"rc": rc, "stderr": (se or "")[-1200:], "timeouts": [l for l in so.splitlines() if l.startswith("timeout")],
+    kv = {"rc": rc, "stderr": (se or "")[-1200:], "timeouts": [l for l in so.splitlines() if l.startswith("timeout") and " probe " not in l],
           "lines": [l for l in so.splitlines() if l.startswith(("ok ", "timeout "))]}
     if r:
         kv.update(dict(x.split("=", 1) for x in r[-1].split()[1:] if "=" in x))
@@ -180,6 +193,127 @@ def judge_forced(ctx, name, text, jit, kv, known, stats):
                   % (jit, kv.get("raw"), kv["stderr"][-300:].replace("\n", " | "), text))
 
 
+# ---------------------------------------------------------------------------------------------- host-side scenarios
+
+HOST_PROG = (
+    "(define x0 0) (define x2 0) (define new-names (list 'n0 'n1 'n2)) (define new-fns (list 'g0 'g1 'g2)) "
+    "(define (serve cmd rep) (let* ((c (channel/recv (channels-receiver cmd))) (op (quotient c 10000)) (i (quotient (modulo c 10000) 100)) (v (modulo c 100))) "
+    "(cond ((= op 9) 'bye) "
+    "((= op 1) (channel/send (channels-sender rep) (cond ((= i 0) x0) ((= i 1) x1) (else x2))) (serve cmd rep)) "
+    "((= op 2) (cond ((= i 0) (set! x0 v)) ((= i 1) (set! x1 v)) (else (set! x2 v))) (channel/send (channels-sender rep) -1) (serve cmd rep)) "
+    "((= op 3) (channel/send (channels-sender rep) ((eval (list-ref new-fns i)))) (serve cmd rep)) "
+    "((= op 4) (channel/send (channels-sender rep) (eval (list-ref new-names i))) (serve cmd rep)) "
+    "(else (serve cmd rep))))) ")
+
+
+def gen_host(rnd, n):
+    """Host-side family: script threads left alive by an earlier `run` (servers blocked on a channel), then a random history of
+    HOST calls that assign existing globals (Engine::update_value, run of (set! ..)) or define NEW ones (register_value,
+    register_fn, run of (define ..) of a fresh name; the threads reach new names through `eval`) and of assignments by the
+    threads (REdefinitions are left out on purpose: in steel a redefinition makes a fresh binding that code compiled earlier does
+    not see, single-threaded as well - that is C06's subject, not a question of threads), every write followed by reads of that and of another
+    global through the host and through the threads.  The oracle is one sequentially consistent store (all steps are
+    serialised by the channel handshake): a read returns the last completed write, whoever made it.
+    Returns [(name, text, expected values of the `run` steps, summary)]."""
+    out = []
+    for c in range(n):
+        k = rnd.choice([1, 1, 2, 3])
+        lines = ["hostprog #t", "regval x1 0"]
+        prog = HOST_PROG + " ".join("(define cmd%d (channels/new)) (define rep%d (channels/new)) (define t%d (spawn-native-thread (lambda () (serve cmd%d rep%d))))" % ((j,) * 5) for j in range(k)) + " 0"
+        lines.append("run " + prog)
+        exp = ["0"]
+        st = {"x0": 0, "x1": 0, "x2": 0}
+        kinds = []
+
+        def th(j, code):
+            return "run (begin (channel/send (channels-sender cmd%d) %d) (channel/recv (channels-receiver rep%d)))" % (j, code, j)
+
+        def read(var, who):
+            i = int(var[1])
+            if var[0] == "x":
+                if who == "host":
+                    lines.append("run " + var)
+                else:
+                    lines.append(th(who, 10000 + i * 100))
+            elif var[0] == "g":
+                if who == "host":
+                    lines.append("run (%s)" % var)
+                else:
+                    lines.append(th(who, 30000 + i * 100))
+            else:
+                if who == "host":
+                    lines.append("run " + var)
+                else:
+                    lines.append(th(who, 40000 + i * 100))
+            exp.append(str(st[var]))
+
+        for step in range(rnd.randint(5, 9)):
+            v = rnd.randint(1, 99)
+            kind = rnd.choice(["update", "update", "update-new", "regval-new", "regfn-new", "host-set", "host-define-new", "thread-set"])
+            fresh_n = [("n%d" % j) for j in range(3) if ("n%d" % j) not in st]
+            fresh_g = [("g%d" % j) for j in range(3) if ("g%d" % j) not in st]
+            if (kind in ("regval-new", "host-define-new") and not fresh_n) or (kind == "regfn-new" and not fresh_g) or \
+                    (kind == "update-new" and len(fresh_n) == 3):
+                kind = "update"
+            if kind == "update":
+                var = rnd.choice(["x0", "x1", "x2"]); lines.append("update %s %d" % (var, v))
+            elif kind == "update-new":          # update_value of a name the host registered after the threads were started
+                var = rnd.choice([("n%d" % j) for j in range(3) if ("n%d" % j) in st]); lines.append("update %s %d" % (var, v))
+            elif kind == "regval-new":
+                var = rnd.choice(fresh_n); lines.append("regval %s %d" % (var, v))
+            elif kind == "regfn-new":
+                var = rnd.choice(fresh_g); lines.append("regfn %s %d" % (var, v))
+            elif kind == "host-set":
+                var = rnd.choice(["x0", "x1", "x2"]); lines.append("run (begin (set! %s %d) -1)" % (var, v)); exp.append("-1")
+            elif kind == "host-define-new":
+                var = rnd.choice(fresh_n); lines.append("run (begin (define %s %d) -1)" % (var, v)); exp.append("-1")
+            else:
+                var = rnd.choice(["x0", "x1", "x2"]); lines.append(th(rnd.randrange(k), 20000 + int(var[1]) * 100 + v)); exp.append("-1")
+            st[var] = v
+            kinds.append(kind)
+            # a write by somebody else to ANOTHER global right after it must not undo it
+            if rnd.random() < 0.6:
+                other = rnd.choice([x for x in ("x0", "x1", "x2") if x != var])
+                w = rnd.randint(1, 99)
+                if rnd.random() < 0.7:
+                    lines.append(th(rnd.randrange(k), 20000 + int(other[1]) * 100 + w)); exp.append("-1"); kinds.append("then-thread-set")
+                else:
+                    lines.append("update %s %d" % (other, w)); kinds.append("then-update")
+                st[other] = w
+                for who in ["host"] + list(range(k)):
+                    if rnd.random() < 0.6:
+                        read(other, who)
+            for who in rnd.sample(["host"] + list(range(k)), rnd.randint(1, k + 1)):
+                read(var, who)
+        for j in range(k):
+            lines.append("run (begin (channel/send (channels-sender cmd%d) 90000) (thread-join! t%d) 7)" % (j, j)); exp.append("7")
+        out.append(("host-%d-k%d" % (c, k), "\n".join(lines) + "\n", exp, kinds))
+    return out
+
+
+def run_host(text, jit):
+    rc, so, se = C.run_bin([C.bin_path("c15")], text, timeout=60, env={"STEEL_JIT": jit, "HOST_BOUND_MS": "30000"})
+    hs = [l for l in so.splitlines() if l.startswith("h ")]
+    r = [l for l in so.splitlines() if l.startswith("result ")]
+    return {"rc": rc, "h": hs, "raw": (r[-1] if r else "no result line (rc=%d)" % rc), "stderr": (se or "")[-800:]}
+
+
+def judge_host(ctx, name, text, exp, jit, res, stats):
+    stats["host_runs"] = stats.get("host_runs", 0) + 1
+    runs = [l for l in res["h"] if l.split()[2] == "run"]
+    got = [dict(x.split("=", 1) for x in l.split() if "=" in x).get("value", "?") if l.endswith(" ok") else "ERR:" + l.split(" ", 4)[-1] for l in runs]
+    bad_steps = [l for l in res["h"] if not l.endswith(" ok")]
+    if got == exp and not bad_steps and "outcome=finished" in res["raw"] and "scanviol=0" in res["raw"]:
+        stats["host_ok"] = stats.get("host_ok", 0) + 1
+        return
+    first = next((i for i, (g, e) in enumerate(zip(got, exp)) if g != e), min(len(got), len(exp)))
+    stats["viol"] += 1
+    ctx.violation("C15-host-%s-jit%s.sched" % (name, jit),
+                  "# C15 violation: host-side scenario (harness c15, STEEL_JIT=%s): a global defined / assigned by the host (or by a thread) is not what a later read returns\n"
+                  "# expected values of the `run` steps: %s\n# observed: %s\n# first difference at run step %d; failing steps: %s\n# %s\n%s"
+                  % (jit, " ".join(exp), " ".join(got), first, "; ".join(bad_steps)[:300], res["raw"], text))
+
+
 # ---------------------------------------------------------------------------------------------- programs
 
 def gen_programs(rnd, quick):
@@ -217,6 +351,19 @@ def gen_programs(rnd, quick):
                   " (define (fill v n live) (if (= n 0) 0 (begin (vector-set! v (modulo n live) (box n)) (fill v (- n 1) live))))"
                   " (let ((t (spawn-native-thread (lambda () (work 600)))) (v (make-vector 9000 (box 0)))) (fill v 40000 9000)"
                   " (thread-join! t) (list g (vector-length v)))", {"K15a"}))
+    if True:
+        # a collection keeps the mutators stopped until marking is complete (seeded change C15-n3, hook-free form): a mutator moves
+        # the only reference to a box out of a holder the marker reaches late, the collector then recycles every free slot
+        progs.append(("gc-late-holder", "(done 0)",
+                      "(define N 20000) (define holder (box (box 'tok))) (define ballast (append (map (lambda (i) (list i)) (range 0 N)) (list holder)))"
+                      " (set! holder #f) (define stop-flag (box #f)) (define bad (box 0)) (define (the-holder) (list-ref ballast N))"
+                      " (define (spin n) (when (> n 0) (spin (- n 1))))"
+                      " (define (toggle) (let ([b (unbox (the-holder))]) (set-box! (the-holder) 0) (spin 30) (unless (eq? (unbox b) 'tok) (set-box! bad (+ 1 (unbox bad)))) (set-box! (the-holder) b)))"
+                      " (define (mutator) (let loop ([i 0]) (toggle) (spin 30) (if (unbox stop-flag) 'done (loop (+ i 1)))))"
+                      " (define (fill n) (when (> n 0) (box n) (fill (- n 1))))"
+                      " (define (rounds k len) (when (> k 0) (#%gc-collect) (fill (* 3 len)) (rounds (- k 1) (* 2 len))))"
+                      " (define t (spawn-native-thread mutator)) (rounds 4 25600) (set-box! stop-flag #t) (list (thread-join! t) (unbox bad))",
+                      {"nojit", "slow"}))
     return progs
 
 
@@ -350,6 +497,10 @@ def run(ctx):
         if fn.endswith(".sched"):
             text = open(os.path.join(cdir, fn)).read()
             jm = re.search(r"^# jit=(\w+)", text, re.M)
+            need = re.search(r"^# requires-fact: (\w+)", text, re.M)
+            if need and not facts.get(need.group(1)):
+                stats.setdefault("skipped_schedules", []).append("%s (needs %s)" % (fn, need.group(1)))
+                continue
             for jit in ([jm.group(1)] if jm else ["true", "false"]):
                 forced.append((fn[:-6], text, jit))
     for name, text in gen_forced(rnd, 20 if ctx.quick() else 48):
@@ -361,16 +512,24 @@ def run(ctx):
         if kv["timeouts"]:
             stats["unsched"].append((name, jit, kv["timeouts"][0]))
         judge_forced(ctx, name, text, jit, kv, known, stats)
+    # (b') host-side scenarios: script threads left alive by an earlier run, then host calls that define / assign globals
+    hosts = gen_host(rnd, 8 if ctx.quick() else 60)
+    hjobs = [(n, t, e, jit) for (n, t, e, _) in hosts for jit in ("true", "false")]
+    for (n, t, e, jit), res in C.pool_map(lambda j: (j, run_host(j[1], j[3])), hjobs, workers=max(2, C.NCPU // 3)):
+        judge_host(ctx, n, t, e, jit, res, stats)
+    stats["host_kinds"] = sorted({k for h in hosts for k in h[3]})
     # (c) programs with delay injection
     progs = gen_programs(rnd, ctx.quick())
     reps = 2 if ctx.quick() else 12
     jobs = []
     for (n, e, p, cl) in progs:
         for jit in ("true", "false"):
+            if jit == "true" and "nojit" in cl:
+                continue
             for r in range(reps):
                 jobs.append((n, e, p, cl, jit, (ctx.seed * 31 + r * 7 + 1) if r % 2 == 0 else None))
     def prog_job(j):
-        kv = run_program(j[0], j[1], j[2], j[4], 8000, j[5])
+        kv = run_program(j[0], j[1], j[2], j[4], 90000 if "slow" in j[3] else 8000, j[5])
         if kv.get("outcome") == "hang-running":
             # still dispatching when the bound expired (slow / loaded machine): once more with 5x the bound
             kv = run_program(j[0], j[1], j[2], j[4], 40000, j[5])
@@ -403,7 +562,7 @@ def run(ctx):
         "checker_cmd": "cd lean && lake build SteelVerif.C15.Props && lake env lean SteelVerif/C15/Audit.lean",
         "trusted_base": C.TRUSTED_BASE + ["sequentially consistent atomics (the code loads `paused` Relaxed)",
                                            "the cfg(steel_verif) yield points and the `being scanned` counter in steel-core (add-only hooks)"],
-        "evaluations": stats["forced"] + stats["prog_runs"] + stats["model_cases"],
+        "evaluations": stats["forced"] + stats["prog_runs"] + stats["model_cases"] + stats.get("host_runs", 0),
         "distinct_nontrivial": len({(n, j) for n, _, j in forced}) + len(progs) * 2,
         "rule": "forced schedule = (site where thread 1 is held: script yield / before publication / before the exit check / before the "
                 "retraction / dispatch poll) x (point the stopper's global update is driven to: scanBegin, scanEnd, thunk, own update, resume) x "
@@ -417,6 +576,7 @@ def run(ctx):
         "program_K15b": stats["k15b_prog"], "model_schedules": stats["model_cases"],
         "code_model": stats["code_model"], "translator_facts": {k: facts.get(k) for k in ("exit_sites", "stop_fenced", "exits_repaired", "spawn_locked", "controller_one_word")},
         "forced_K15c": stats.get("k15c_forced", 0),
+        "skipped_schedules": stats.get("skipped_schedules", []), "host_scenarios": stats.get("host_runs", 0), "host_ok": stats.get("host_ok", 0), "host_step_kinds": stats.get("host_kinds"),
         "model_of_code_exit_race_scanOk": stats.get("model_of_code_exit_race"), "model_of_code_late_registration_envOk": stats.get("model_of_code_late_registration"),
         "axioms": pr.get("axioms", {}), "proof_failures": ["%s: %s" % f for f in pr["failed"]],
     }
@@ -427,6 +587,14 @@ def run(ctx):
 def replay(ctx, path):
     C.build_harness(ctx, ["c15", "c16"])
     text = open(path).read()
+    if "\nhostprog " in "\n" + text:
+        body = "\n".join(l for l in text.splitlines() if not l.startswith("#")) + "\n"
+        for jit in ("true", "false"):
+            res = run_host(body, jit)
+            print("jit=%s %s" % (jit, res["raw"]))
+            for l in res["h"]:
+                print("   " + l[:200])
+        return 0
     if path.endswith(".sched") or "\nprog " in "\n" + text:
         jm = re.search(r"^# jit=(\w+)", text, re.M)
         for jit in ([jm.group(1)] if jm else ["true", "false"]):
